@@ -223,3 +223,69 @@ def run_pair(v, pid, tier, seed, replay_steps=None):
     v.cov["traces_validated_against_impl"] = v.cov.get("traces_validated_against_impl", 0) + len(traces)
     v.cov["distinct_nontrivial"] = v.cov.get("distinct_nontrivial", 0) + len(traces)
     return traces
+
+
+# --------------------------------------------------------------------------
+# the repository's own tests as a trace corpus (spec/ConnSnap.tla)
+
+CORPUS_PKGS = {"quick": ["mcp"], "thorough": ["mcp", "internal/jsonrpc2", "examples/server/distributed", "auth"]}
+SNAP_CLAUSE_PIDS = {"C01": ("C01.",), "C05": ("C05.",)}
+
+
+def repo_corpus(v, pid, tier, replay_rows=None):
+    """Run the repository's own test packages with the guarded hooks on and the file tracer
+    installed (VERIF_TRACE_DIR); every critical section of every connection those tests create is
+    logged under the connection's state lock.  TLC then evaluates the snapshot-level monitor
+    ConnSnap.tla over all of them.  Test failures of the repository's tests are not this check's
+    business (some are timing-sensitive); only the recorded histories are judged."""
+    import collections
+    if replay_rows is not None:
+        rows = replay_rows
+    else:
+        d = vlib.scratch("cstr-")
+        rows = []
+        for pkg in CORPUS_PKGS[tier]:
+            if not os.path.isdir(os.path.join(vlib.REPO, pkg)):
+                continue
+            sub = os.path.join(d, pkg.replace("/", "_"))
+            os.makedirs(sub)
+            rc, outp, wall = vlib.go_test(pkg, ".", [], env={"VERIF_TRACE_DIR": sub}, timeout=900)
+            vlib.go_must_build(rc, outp, "repo tests of " + pkg)
+            for i, f in enumerate(sorted(glob.glob(os.path.join(sub, "cs-*.ndjson")))):
+                for ln in open(f, errors="replace"):
+                    try:
+                        r = json.loads(ln)
+                    except ValueError:
+                        continue          # a line cut short by a test process that was killed
+                    r["c"] = "%s.%d.%s" % (pkg, i, r["c"])
+                    rows.append(r)
+        if len(rows) < 1000:
+            raise vlib.MachineryError("repository test corpus: only %d critical sections recorded (tracer hook missing?)" % len(rows))
+    out = vlib.outdir(pid)
+    sp = os.path.join(out, "obs_corpus.ndjson")
+    vlib.write_ndjson(sp, rows)
+    fails, res = vlib.run_monitor("ConnSnap", "ConnSnap.cfg", sp, timeout=1500, heap_gb=8)
+    v.add_tlc("ConnSnap(monitor over the repository's own tests)", res)
+    conns = collections.OrderedDict()
+    for r in rows:
+        conns.setdefault(r["c"], []).append(r)
+    ndrift = 0
+    for f in fails:
+        r = rows[f["line"] - 1]
+        hist = conns[r["c"]]
+        if f["monfail"] == "drift":
+            ndrift += 1
+            if ndrift <= 3:
+                v.drift.append("repo-test corpus: a critical section of %s is not a step of Conn.tla's projection: %s" % (r["fn"], json.dumps(r["s"])[:200]))
+            continue
+        if not f["monfail"].startswith(SNAP_CLAUSE_PIDS[pid]):
+            continue
+        v.violation("corpus:" + f["monfail"] + ":" + r["fn"].split(".")[-1],
+                    "%s violated by a connection of the repository's own tests at a critical section of %s: %s" % (f["monfail"], r["fn"], json.dumps(r["s"])),
+                    {"corpus_rows": hist[:400]})
+    os.remove(sp)
+    v.cov["corpus_critical_sections"] = len(rows)
+    v.cov["corpus_connections"] = len(conns)
+    v.cov["corpus_by_function"] = dict(collections.Counter(r["fn"].split(".")[-1] for r in rows))
+    v.cov["evaluations"] = v.cov.get("evaluations", 0) + len(rows)
+    return len(rows)
